@@ -97,7 +97,7 @@ def main():
         os.makedirs(wd, exist_ok=True)
         histbfs.check_keys.clear()
         left_share = sum(r[5] for r in runs if r[0] not in per_run)
-        deadline = time.time() + max(10.0, (total - (time.time() - t_start)) * share / left_share)
+        deadline = time.time() + max(30.0, (total - (time.time() - t_start)) * share / left_share)
         t1 = time.time()
 
         def crash_sig(op, crash, stderr):
@@ -115,7 +115,7 @@ def main():
             c.violation(sig, "[%s] %s :: %s" % (mode, readable, detail),
                         {"mode": mode, "full_at": full_at, "history": hist})
         need = 2
-        if res.depth_completed < need and not res.violations:   # observations made so far are still reported
+        if res.depth_completed < need and not res.violations and not c.violations and not res.budget_hit:   # out of budget = exit 0 with exhaustive:false (HOWTO rule 1)   # observations made so far are still reported
             c.harness_error("run %s: BFS did not complete depth %d (completed %d)" % (name, need, res.depth_completed))
         events = set()
         for f in glob.glob(os.path.join(wd, "events.*")):
